@@ -132,6 +132,20 @@ func mutateBody(r *rand.Rand, b []byte) []byte {
 	return out
 }
 
+// hostilePct: a grpc-message value assembled from well-formed escapes, truncated escapes, escapes with
+// non-hex digits, raw bytes that should have been escaped, and plain text, in every order.
+func hostilePct(r *rand.Rand) string {
+	if chance(r, 5) {
+		return strings.Repeat("%41", 3000)
+	}
+	toks := []string{"%", "%4", "%41", "%C3%A9", "%E4", "%zz", "%z", "%!", "%4z", "%%", "a", " is 100", "\xe9", "\x7f", "\t", "ok", "%00", "%0"}
+	var sb strings.Builder
+	for n := r.IntN(7); n >= 0; n-- {
+		sb.WriteString(pick(r, toks))
+	}
+	return sb.String()
+}
+
 type c11Case struct {
 	s       *Scenario
 	ops     []string
@@ -191,6 +205,13 @@ func genC11(r *rand.Rand) *c11Case {
 			creq.Extra["Connect-Protocol-Version"] = pick(r, [][]string{{"1"}, {"2"}, {"1", "1"}, {""}, {"v1"}})
 			cc.ops = append(cc.ops, "connect-version")
 		case 8:
+			if raw := []byte(nil); chance(r, 25) {
+				if raw = hostileCompressedRequest(r, s, pick(r, []string{"corrupt", "bomb"}), int(s.Cfg.Limit)); raw != nil {
+					creq.RawBody = raw
+					cc.ops = append(cc.ops, "decompress-fault")
+					break
+				}
+			}
 			creq.RawBody = mutateBody(r, creq.RawBody)
 			cc.ops = append(cc.ops, "body")
 		case 9:
@@ -217,14 +238,17 @@ func genC11(r *rand.Rand) *c11Case {
 	sc := s.Script
 	if chance(r, 45) {
 		cc.hostile = true
-		switch r.IntN(12) {
+		switch r.IntN(13) {
+		case 12:
+			hostileCompressedResponse(r, sc, pick(r, []string{"corrupt", "bomb"}), int(s.Cfg.Limit))
+			cc.flavour = "decompress-fault"
 		case 0:
 			sc.Bare = &BareHTTP{Status: pick(r, []int{0, 1, 99, 100, 101, 102, 199, 200, 204, 205, 206, 304, 600, 999, 1000, -1, 418}), CT: pick(r, []string{"", "application/grpc", "application/json", "application/proto", "application/connect+proto"}),
 				Body: mutateBody(r, []byte("0123456789"))}
 			cc.flavour = "bare-status"
 		case 1:
 			sc.Headers = http.Header{"Grpc-Status": {pick(r, []string{"17", "-1", "4294967295", "4294967296", "99999999999999999999", "abc", "", "0x1", "1.5", " 2", "16", "0", "00"})},
-				"Grpc-Message": {pick(r, []string{"%", "%zz", "%E4", "ok", strings.Repeat("%41", 3000)})}, "Grpc-Status-Details-Bin": {pick(r, []string{"", "!!!", "AAAA", "CAESBGJvb20"})}}
+				"Grpc-Message": {hostilePct(r)}, "Grpc-Status-Details-Bin": {pick(r, []string{"", "!!!", "AAAA", "CAESBGJvb20"})}}
 			cc.flavour = "grpc-status-header"
 		case 2:
 			sc.Headers = http.Header{"Content-Length": pick(r, [][]string{{"-5"}, {"abc"}, {"5", "7"}, {"99999999999"}, {"0"}})}
@@ -255,7 +279,12 @@ func genC11(r *rand.Rand) *c11Case {
 			sc.NoRead, sc.RespondFirst = chance(r, 50), true
 			cc.flavour = "respond-before-reading"
 		case 11:
-			sc.Err = &RPCError{Code: pick(r, []int{17, 1 << 20, -1, 0}), Msg: strings.Repeat("m", pick(r, []int{0, 10, 70000}))}
+			sc.Err = &RPCError{Code: pick(r, []int{17, 1 << 20, -1, 0, 3, 13}), Msg: strings.Repeat("m", pick(r, []int{0, 10, 70000}))}
+			if chance(r, 60) {
+				// a grpc-message that is not (or only partly) percent-encoded, in real trailers or a trailers-only head
+				sc.Err.RawGrpcMessage = hostilePct(r)
+				sc.TrailersOnly = chance(r, 40)
+			}
 			cc.flavour = "weird-error"
 		}
 	}
